@@ -14,28 +14,44 @@ COQ_CASE_TYPE = "case"
 COQ_RUN = "run_case"
 TABLE_CONSTRUCTS = ["agent_first_id", "deregister_order", "register_order", "remove_suppresses_keyerror", "registry_skeleton"]
 RULE = ("histories = 1-3 coexisting models (more via new_model) + 4-40 ops out of: constructor call, create_agents "
-        "(scalar / list / tuple / ndarray / str argument, positional or keyword, length = n and != n, n in -1..4), "
-        "agent.remove (also of removed agents), model.deregister_agent, remove_all_agents, in-place shuffle/sort of "
-        "model.agents and of agents_by_type[c], and do/map/shuffle_do activations of model.agents or agents_by_type[c] "
-        "whose callbacks remove themselves/others, create agents (also for another model) or call remove_all_agents; "
-        "five agent classes (A, A>B, A>B>C built with type(), D, mesa.Agent itself); every view of every model is "
-        "observed after every op; non-trivial = at least 3 ops, one creation and one removal or activation; "
-        "distinct = by SHA1 of the history")
+        "(scalar / list / tuple / ndarray / str argument, positional or keyword, length = n and != n, n in -1..4; equal argument "
+        "specifications share ONE object across calls and models and must come back unchanged), agent.remove (also of removed "
+        "agents), model.deregister_agent, remove_all_agents, in-place shuffle/sort of model.agents and of agents_by_type[c], "
+        "do/map/shuffle_do activations of model.agents or agents_by_type[c] whose callbacks remove themselves/others (also agents of "
+        "other models), create agents (also for another model) or call remove_all_agents; every 7th history also mutates "
+        "model.agents through the AgentSet API (discard/remove/select(inplace=True) with 6 filter forms); every 5th keeps an "
+        "abandoned live iterator over every set before each op; eleven agent classes: A, A>B, A>B>C built with type(), D, mesa.Agent "
+        "itself, four classes overriding remove() (work then super late; super then work; no super; super then remove() of "
+        "ANOTHER agent of the model, chains and cycles), a class with falsy instances, a class with a mixin after mesa.Agent in "
+        "the MRO; a model with agents that came and went before the history (prior history in the process); plus an "
+        "oracle-only stream (1/5 more histories, not evaluated by the Z-valued model): twelve exotic payload objects (None, float, "
+        "str, tuple, bool, 2**70, numpy scalar, 0-d array, frozenset, dict, Decimal, Fraction) through the constructor and "
+        "create_agents, constructors raising before / after super().__init__(), callbacks raising in the middle of an activation, "
+        "n = 30; every view of every model is observed after every op and the oracle is evaluated after every atomic action "
+        "(not inside a running remove()/remove_all_agents()); non-trivial = at least 3 ops, one creation and one removal or "
+        "activation; distinct = by SHA1 of the history; enumerator (thorough / on a break): all sequences of length <= 3 (4) over 21 ops")
 TRUSTED_BASE = [
-    "Coq 8.16.1 kernel (coqc); vm_compute used for evaluating the model in the correspondence and for the examples",
+    "Coq 8.16.1 kernel (coqc); vm_compute used for evaluating the model in the correspondence, for the examples and the two refutation witnesses; coqchk in the thorough tier",
     "no axioms: Print Assumptions reports 'Closed under the global context' for every C02 theorem",
-    "harness/tables/registry.py (T1) extracting the first id, the statement order of register_agent/deregister_agent and the shape of Agent.remove/remove_all_agents",
-    "harness/props/C02.py driver+observer and the Gallina literal printer (T2, differential testing, not a proof)",
+    "harness/tables/registry.py (T1): first id, statement ORDER of register_agent / deregister_agent (translated), and the statement "
+    "skeletons of Agent.__init__, Agent.create_agents, Agent.remove, Model.remove_all_agents and the registry part of Model.__init__, "
+    "compared modulo local names, docstrings, annotations, logger calls and message texts; C02_source_first_id / "
+    "C02_source_statement_order prove generated = what Model/Registry.v hard-codes",
+    "harness/props/C02.py driver+observer, the shadow-history oracle and the Gallina literal printer (T2, differential testing, not a proof)",
     "Model/Registry.v is a hand transcription of Agent.__init__/remove/create_agents and Model.register_agent/"
-    "deregister_agent/remove_all_agents, AgentSet.do/shuffle_do loop; dict and WeakKeyDictionary = insertion-ordered "
-    "key list; the harness keeps a strong reference to every agent, so no weak reference dies",
+    "deregister_agent/remove_all_agents, the AgentSet.do/shuffle_do loop and AgentSet.discard/remove/select(inplace) on model.agents; dict "
+    "and WeakKeyDictionary = insertion-ordered key list; Python's dynamic dispatch of remove() = a fixed table of four overriding classes",
     "Uint63 primitive hash only in scratch Cases files, never under a theorem",
 ]
 ASSUMPTIONS = [
-    "user code does not mutate model.agents / agents_by_type[...] through the AgentSet API other than by in-place "
-    "shuffle/sort (the class docstring rules that out) and does not call register_agent directly",
-    "in-place shuffle/sort outcomes are inputs to the model, checked to be permutations",
-    "every agent is strongly referenced by the harness for the whole history (weak-reference death is C04's subject)",
+    "the harness keeps a strong reference to every agent for the whole history (weak-reference death is C04's subject)",
+    "in-place shuffle/sort outcomes, select(inplace=True) outcomes and shuffle_do orders are inputs to the model, checked to be "
+    "permutations / subsequences",
+    "overriding remove() methods are the four modelled shapes (their extra work: constructing agents for self.model, or remove() of "
+    "another agent of the SAME model that is still in model.agents); an override touching another model, and user calls of "
+    "register_agent, are outside the model",
+    "exactness of model.agents is claimed for histories without AgentSet-API removal from model.agents (C02_agents_exact carries the "
+    "hypothesis setapi_free; with such removals the weaker C02_agents_sound_any_history holds and the exactness statement is refuted by a witness)",
     "model objects hash by identity (the _ids table is keyed by the model object)",
 ]
 SOURCE_FUNCS = [("mesa/agent.py", "Agent.__init__"), ("mesa/agent.py", "Agent.remove"), ("mesa/agent.py", "Agent.create_agents"),
@@ -44,12 +60,15 @@ SOURCE_FUNCS = [("mesa/agent.py", "Agent.__init__"), ("mesa/agent.py", "Agent.re
                 ("mesa/model.py", "Model.agents_by_type"), ("mesa/agent.py", "AgentSet.do"), ("mesa/agent.py", "AgentSet.shuffle_do"),
                 ("mesa/agent.py", "AgentSet.map"), ("mesa/agent.py", "AgentSet.add"), ("mesa/agent.py", "AgentSet.remove"),
                 ("mesa/agent.py", "AgentSet.discard"), ("mesa/agent.py", "AgentSet._update")]
-NCLS = 9   # A, B(A), C(B), D, mesa.Agent, and four classes overriding remove(): E(A), F(D), G(A), H(A)
+NCLS = 11  # A, B(A), C(B), D, mesa.Agent, four classes overriding remove(): E(A), F(D), G(A), H(A), then
+#            Zf(A): instances are falsy (__bool__ False, __len__ 0), J(mesa.Agent, Mixin): a mixin AFTER the framework base
+#            (classes 11, 12 - constructors that raise before / after super().__init__() - only in the oracle-only stream)
 OVERRIDING = (5, 6, 7, 8)
+PLAIN = (0, 1, 2, 3, 4, 9, 10)
 
 
 def _gen_cls(rng):
-    return rng.randrange(5) if rng.random() < 0.75 else rng.choice(OVERRIDING)
+    return rng.choice(PLAIN) if rng.random() < 0.75 else rng.choice(OVERRIDING)
 
 
 def _gen_val(rng, sim, c):
@@ -62,6 +81,24 @@ E_KEY = 1
 
 
 # ------------------------------------------------------------------ generation
+class _CtorBoom(Exception):
+    pass
+
+
+class _CbBoom(Exception):
+    pass
+
+
+def _exotic(i):
+    import decimal
+    import fractions
+
+    import numpy as np
+
+    return [None, 1.5, "txt", (1, 2), True, 2 ** 70, np.int64(3), np.array(5), frozenset({1, 2}), {"a": 1}, decimal.Decimal("0.1"),
+            fractions.Fraction(1, 3)][i % N_EXOTIC]
+
+
 class _Sim:
     """the generator's own bookkeeping of which keys exist (approximate after shuffles: only used to
     aim ops at existing agents; a miss is a no-op in driver and model alike)"""
@@ -212,7 +249,7 @@ def _gen_setapi(rng, sim):
         live = sim.live[m]
         k = rng.choice(live) if live and rng.random() < 0.8 else rng.randrange(len(sim.born))
         return ["set_discard", m, k, rng.random() < 0.5]
-    return ["set_select", m, rng.choice(["even_keys", "val_ge_3", "first2", "all"])]
+    return ["set_select", m, rng.choice(["even_keys", "val_ge_3", "first2", "all", "none", "half"])]
 
 
 def _gen_history(rng, nops, setapi=False):
@@ -243,8 +280,42 @@ def gen_cases(rng, tier):
     for i in range(n):
         nops = rng.randint(4, 16) if i % 3 else rng.randint(16, 40)
         # every seventh history also mutates model.agents through the AgentSet API (not a registry operation)
-        cases.append(_gen_history(rng, nops, setapi=(i % 7 == 6)))
+        c = _gen_history(rng, nops, setapi=(i % 7 == 6))
+        if i % 5 == 4:
+            c["abandon_iter"] = True     # an abandoned, still referenced iterator over every set before each op
+        cases.append(c)
+    # oracle-only stream (the Z-valued model cannot represent it): exotic payload objects, constructors that raise before /
+    # after super().__init__(), callbacks that raise in the middle of an activation, large n
+    for i in range(n // 5):
+        cases.append(_gen_oracle_only(rng))
     return cases
+
+
+N_EXOTIC = 12
+
+
+def _gen_oracle_only(rng):
+    c = _gen_history(rng, rng.randint(6, 20), setapi=False)
+    ops = []
+    nm = c["nmodels"]
+    for op in c["ops"]:
+        r = rng.random()
+        if r < 0.12:
+            ops.append(["create_x", rng.randrange(nm), rng.choice([0, 1, 2, 3, 9, 10]), rng.randrange(N_EXOTIC)])
+        elif r < 0.22:
+            ops.append(["create_many_x", rng.randrange(nm), rng.choice([0, 1, 3, 9, 10]), rng.choice([0, 1, 2, 3]),
+                        rng.randrange(N_EXOTIC), rng.choice(["pos", "kw"])])
+        elif r < 0.30:
+            ops.append(["create_raise", rng.randrange(nm), rng.choice([11, 12])])
+        elif r < 0.33:
+            ops.append(["create_many", rng.randrange(nm), 0, 30, "scalar", 1, "pos"])
+        if op[0] == "activate" and op[5] and rng.random() < 0.6:
+            op = list(op)
+            sc = [list(e) for e in op[5]]
+            sc[rng.randrange(len(sc))][1] = ["raise"]
+            op[5] = sc
+        ops.append(op)
+    return {"nmodels": nm, "ops": ops, "oracle_only": True, "abandon_iter": rng.random() < 0.3}
 
 
 _ALPHABET = [
@@ -291,8 +362,13 @@ def _enc_val(v):
         return [0, int(v)]
     if isinstance(v, str):
         return [1, len(v)] + [ord(ch) for ch in v]
+    if isinstance(v, np.ndarray) and v.ndim != 1:
+        return [2, -1]
     if isinstance(v, (list, tuple, np.ndarray)):
-        return [1, len(v)] + [int(x) for x in v]
+        try:
+            return [1, len(v)] + [int(x) for x in v]
+        except (TypeError, ValueError):
+            return [2, -1]
     return [2, -1]
 
 
@@ -346,8 +422,45 @@ class _Driver:
                 if p is not None and p is not self and p.model is self.model and p in self.model.agents:
                     drv.nested_remove(p)
 
+        class Zf(A):           # falsy instances: `if agent:` is not `if agent is not None:`
+            def __bool__(self):
+                return False
+
+            def __len__(self):
+                return 0
+
+        class Mixin:
+            def __init__(self, *args, **kwargs):
+                self.mixed = True
+                super().__init__(*args, **kwargs)
+
+        class J(mesa.Agent, Mixin):      # a mixin placed AFTER the framework base in the MRO
+            def __init__(self, model, val=0):
+                super().__init__(model)
+                self.val = val
+
+            def act(self, drv):
+                drv.callback(self)
+
+        class RB(A):           # the constructor raises BEFORE super().__init__(): no id drawn, nothing registered
+            def __init__(self, model, val=0):
+                raise _CtorBoom
+
+        class RA(A):           # ... AFTER super().__init__(): the agent exists, is registered and has drawn its id
+            def __init__(self, model, val=0):
+                super().__init__(model, val)
+                raise _CtorBoom
+
         self.suspend = 0
-        self.classes = [A, B, C, D, mesa.Agent, E, F, G, H]
+        self.shared = {}        # equal argument specifications share ONE mutable object across calls and models
+        self.abandoned = []
+        self.abandon = bool(case.get("abandon_iter"))
+        self.classes = [A, B, C, D, mesa.Agent, E, F, G, H, Zf, J, RB, RA]
+        # prior history in the same process: a model that came and went, with agents of the same classes
+        prior = mesa.Model(seed=3)
+        for cls0 in (A, D, C, Zf):
+            cls0(prior, 1)
+        prior.remove_all_agents()
         self.cidx = {c: i for i, c in enumerate(self.classes)}
         self.models = [mesa.Model(seed=7 + i) for i in range(case["nmodels"])]
         self.born = []          # agents, index = key (strong references for the whole history)
@@ -416,9 +529,17 @@ class _Driver:
         if c == 4:
             ret = cls.create_agents(model, n)
         else:
-            arg = {"scalar": lambda: data, "list": lambda: list(data), "tuple": lambda: tuple(data),
-                   "ndarray": lambda: np.array(data, dtype=int), "str": lambda: "".join(chr(x) for x in data)}[kind]()
+            spec = (kind, tuple(data) if isinstance(data, list) else data)
+            if spec not in self.shared:
+                self.shared[spec] = {"scalar": lambda: data, "list": lambda: list(data), "tuple": lambda: tuple(data),
+                                     "ndarray": lambda: np.array(data, dtype=int),
+                                     "str": lambda: "".join(chr(x) for x in data)}[kind]()
+            arg = self.shared[spec]          # the SAME object every time this specification is used
             ret = cls.create_agents(model, n, arg) if how == "pos" else cls.create_agents(model, n, val=arg)
+            now = arg.tolist() if kind == "ndarray" else ([ord(ch) for ch in arg] if kind == "str" else (list(arg) if kind != "scalar" else arg))
+            if now != (list(data) if kind != "scalar" else data):
+                self.fail("C02/Agent.create_agents/argument-mutated",
+                          f"{cls.__name__}.create_agents(model {m}, {n}, {kind} {data}) changed the caller's argument to {now}")
         got = list(ret)
         want = max(0, n)
         ok = (len(got) == want and all(id(x) not in before for x in got) and len({id(x) for x in got}) == len(got)
@@ -510,6 +631,8 @@ class _Driver:
             self.do_create_many(*a[1:])
         elif a[0] == "remove_all":
             self.do_remove_all(a[1])
+        elif a[0] == "raise":
+            raise _CbBoom
         else:
             raise ValueError(a)
 
@@ -618,7 +741,7 @@ class _Driver:
             return set()
         if k in ("remove", "deregister"):
             return {self.s_model[op[1]]} if 0 <= op[1] < len(self.born) else set()
-        if k in ("set_discard", "set_select"):
+        if k in ("set_discard", "set_select", "create_x", "create_many_x", "create_raise"):
             return {op[1]}
         if k == "activate":
             t = {op[1]}
@@ -698,6 +821,50 @@ class _Driver:
             self.check("in-place reorder")
             order = [self.kof(a) for a in aset]
             return [0], op + [order]
+        if kind == "create_x":
+            _, m, c, xi = op
+            if not 0 <= m < len(self.models):
+                return [-2], op
+            a = self.classes[c](self.models[m], _exotic(xi))
+            k = self.adopt(a, m, c)
+            self.check("constructor")
+            return [k], op
+        if kind == "create_many_x":
+            _, m, c, n, xi, how = op
+            if not 0 <= m < len(self.models):
+                return [-2], op
+            import numpy as np
+
+            x = _exotic(xi)
+            cls, model = self.classes[c], self.models[m]
+            before = self.view()
+            try:
+                ret = cls.create_agents(model, n, x) if how == "pos" else cls.create_agents(model, n, val=x)
+            except TypeError:
+                # a 0-d ndarray has no len(): create_agents refuses it before constructing anything
+                if not (isinstance(x, np.ndarray) and x.ndim == 0) or self.view() != before:
+                    raise
+                return [-1, 2], op
+            for a in ret:
+                if id(a) not in self.key:
+                    self.adopt(a, m, c)
+            self.check("create_agents")
+            return [len(ret)], op
+        if kind == "create_raise":
+            _, m, c = op
+            if not 0 <= m < len(self.models):
+                return [-2], op
+            model = self.models[m]
+            try:
+                self.classes[c](model, 1)
+            except _CtorBoom:
+                pass
+            # whatever got registered was created for this model (the constructor drew an id and registered before raising)
+            for a in list(model.agents):
+                if id(a) not in self.key:
+                    self.adopt(a, m, c)
+            self.check("constructor that raised")
+            return [0], op
         if kind == "set_discard":
             _, m, k, strict = op
             if not 0 <= m < len(self.models):
@@ -730,6 +897,10 @@ class _Driver:
                 kw = {"filter_func": lambda a: _enc_val(getattr(a, "val", 0)) >= [0, 3]}
             elif how == "first2":
                 kw = {"at_most": 2}
+            elif how == "none":
+                kw = {"at_most": 0}
+            elif how == "half":
+                kw = {"at_most": 0.5}
             else:
                 kw = {}
             before = [self.kof(a) for a in model.agents]
@@ -761,12 +932,16 @@ class _Driver:
                 meth, args = "act", (self,)
             else:
                 meth, args = self.callback, ()
-            if akind == "do":
-                r = aset.do(meth, *args)
-            elif akind == "map":
-                r = aset.map(meth, *args)
-            else:
-                r = aset.shuffle_do(meth, *args)
+            try:
+                if akind == "do":
+                    r = aset.do(meth, *args)
+                elif akind == "map":
+                    r = aset.map(meth, *args)
+                else:
+                    r = aset.shuffle_do(meth, *args)
+            except _CbBoom:
+                pass        # user code raised in the middle of the activation: the history goes on from there
+            self.check("activation aborted by an exception in user code" if any(e[1] == ["raise"] for e in script) else "activation")
             self.script = {}
             called = list(self.called)
             return [len(called)] + called, op + [called]
@@ -780,6 +955,12 @@ def run_impl(case):
     for i, op in enumerate(case["ops"]):
         drv.opi = i
         tg = drv.targets(op)
+        if drv.abandon:
+            for mm in drv.models:
+                for aset in [mm.agents, *mm.agents_by_type.values()]:
+                    it = iter(aset)
+                    next(it, None)
+                    drv.abandoned.append(it)      # abandoned but alive: the WeakKeyDictionary iteration guard stays set
         before = [drv.view_model(j) for j in range(len(drv.models))]
         try:
             r, mop = drv.run_op(op)
@@ -798,7 +979,7 @@ def run_impl(case):
             obs.append([-1, 99])
             drv.fail("C02/observer/unexpected-exception", f"observing after {op} raised {type(e).__name__}: {e}")
         ops_for_model.append(mop)
-    return {"obs": obs, "failures": drv.failures, "ops_for_model": ops_for_model}
+    return {"obs": obs, "failures": drv.failures, "ops_for_model": ops_for_model, "model": not case.get("oracle_only")}
 
 
 # ------------------------------------------------------------------ model side
@@ -823,6 +1004,8 @@ def _act(a):
         return f"ACreateMany {L.z(a[1])} {L.z(a[2])} {L.z(a[3])} {_form(a[4], a[5])}"
     if a[0] == "remove_all":
         return f"ARemoveAll {L.z(a[1])}"
+    if a[0] == "raise":
+        return "ANop"             # oracle-only
     raise ValueError(a)
 
 
@@ -858,6 +1041,8 @@ def _op(op):
         shuf = f"(Some {L.zlist(called)})" if akind == "shuffle_do" else "None"
         sc = L.lst([L.pair(L.z(e[0]), _act(e[1])) for e in script])
         return f"Activate {L.z(m)} {cc} {shuf} {sc}"
+    if k in ("create_x", "create_many_x", "create_raise"):
+        return "Remove (-1)"      # oracle-only operations: the Z-valued model has no counterpart (never compared)
     raise ValueError(op)
 
 
@@ -874,6 +1059,8 @@ def op_kinds(case):
         elif op[0] == "activate":
             out.append(f"activate/{op[3]}/{op[4]}")
             out += [f"callback/{e[1][0]}" for e in op[5]]
+        elif op[0] in ("create_x", "create_many_x"):
+            out.append(f"{op[0]}/{type(_exotic(op[3] if op[0] == 'create_x' else op[4])).__name__}")
         elif op[0] == "set_select":
             out.append(f"set_select/{op[2]}")
         elif op[0] == "set_discard":
@@ -891,19 +1078,31 @@ def nontrivial(case):
             and any(k in ("remove", "remove_all", "activate", "deregister") for k in ks))
 
 
-LEVEL_TEXT = ("Machine-checked Coq theorems over a Gallina transcription of Agent.__init__/remove/create_agents and "
-              "Model.register_agent/deregister_agent/remove_all_agents: for every history of the modelled operations on any "
-              "number of coexisting models (constructor, create_agents, remove, deregister, remove_all_agents, in-place "
-              "reorders, activations whose callbacks create and remove agents) an invariant holds that gives: the hard-reference "
-              "dict equals the created-and-not-removed agents in creation order, model.agents and every agents_by_type "
-              "set are permutations of it (equal to it while nothing was reordered in place), every class with a live agent "
-              "is a key, unique_ids per model are 1,2,3,... in creation order (hence distinct, never reused), removal is "
-              "idempotent and clears every view, and an operation on one model leaves every other model's registry and "
-              "id counter untouched. The model is tied to the code by differential evaluation (vm_compute) on random "
-              "and enumerated histories (T2); an independent shadow-history oracle states the property on the "
-              "implementation and supplies the failing input.")
-LEVEL_NOTE = ("Theorems are about the model; weak-reference death, direct mutation of model.agents through the AgentSet "
-              "API and register_agent called by user code are outside it. Trusted: Coq kernel, the driver/observer, "
-              "CPython dict/WeakKeyDictionary ordering as modelled. No axioms.")
-TECHNIQUE = "Coq proof (state invariant by induction over histories, closed under global context) + vm_compute correspondence"
+LEVEL_TEXT = ("27 machine-checked Coq theorems (+ 6 examples) over a Gallina transcription of the registry code (Model/Registry.v, "
+              "Proofs/RegistryProofs.v, RegistryMore.v, RegistryProjection.v), all for EVERY history of the modelled operations on any number "
+              "of coexisting models, proved by a state invariant (strict / weak by a flag) preserved by the two atomic actions and lifted "
+              "through every loop by a generic closure section: the hard-reference dict equals the created-and-not-removed agents in "
+              "creation order; agents_by_type groups them by exact class and agent_types is EXACTLY the classes ever instantiated, in "
+              "order of first creation (a class keeps its key with an empty set); model.agents is a duplicate-free permutation of the "
+              "live agents - equal as a list while nothing was reordered in place - for histories without AgentSet-API removal, and "
+              "never holds a removed/foreign/duplicate agent in any history; unique_ids per model are 1,2,3,... in creation order, "
+              "never reused; Agent.remove is idempotent in every state and clears every view; remove_all_agents restores full exactness "
+              "after anything done to model.agents (absent overriding remove()); coexisting models: frame theorems, an activation frame "
+              "theorem, and the PROJECTION theorem (each model's final registry and id counter = fold of a one-model step over the "
+              "events addressed to it, events of callbacks, create_agents, remove_all_agents and overriding remove() methods "
+              "included); two refutation witnesses (exactness under AgentSet-API removal; emptiness after remove_all_agents with "
+              "overriding remove()). Tied to the code by T1 (tables and statement skeletons re-read from the source on every run) and "
+              "by differential evaluation under vm_compute on random and enumerated histories (T2); an independent shadow-history "
+              "oracle states the property on the implementation, also on an oracle-only stream of exotic values and error paths, and "
+              "supplies the failing input.")
+LEVEL_NOTE = ("Theorems are about the model. Not modelled: weak-reference death (harness keeps agents alive), remove() overrides beyond "
+              "the four shapes or touching another model, user calls of register_agent; argument distribution of create_agents is in "
+              "the model and the correspondence but not an oracle clause (the statement does not speak about it). No defect of the "
+              "unchanged tree in this area; observations: agents_by_type keeps empty sets for extinct classes (proved), create_agents "
+              "refuses a 0-d ndarray with TypeError before constructing anything, deregister_agent on an agent discarded from "
+              "model.agents raises KeyError after updating two structures (user-inflicted). Trusted: Coq kernel, the T1 extractor, the "
+              "driver/observer, CPython dict/WeakKeyDictionary ordering as modelled. No axioms.")
+TECHNIQUE = ("Coq proof (strict/weak state invariant and trace projection by induction over histories, fuel-indexed recursion for chained "
+             "remove() overrides; closed under the global context) + source-regenerated tables and statement skeletons (T1) + vm_compute "
+             "correspondence and shadow-history oracle (T2)")
 DESIGN_REF = "DESIGN.md section 4, C02"
